@@ -5244,7 +5244,11 @@ def elemwise(op, *args, out=None, where=True, dtype=None, name=None, **kwargs):
         )
 
     if not name:
-        name = f"{funcname(op)}-{tokenize(op, dtype, *args, where)}"
+        # with a ``where`` mask the values of ``out`` are an input of the
+        # computation (they show through where the mask is False)
+        name = f"{funcname(op)}-" + tokenize(
+            op, dtype, *args, where, *([out] if where is not True else [])
+        )
 
     blockwise_kwargs = dict(dtype=dtype, name=name, token=funcname(op).strip("_"))
 
